@@ -75,3 +75,14 @@ Theorem C11_chunk_walk_sound : forall fuel buf off, bytes_ok buf -> 0 <= off <= 
   (forall sz, chunk_walk fuel buf off = Ok sz -> 0 <= sz /\ sz + 8 <= off).
 Proof. exact chunk_walk_sound. Qed.
 Print Assumptions C11_chunk_walk_sound.
+
+(* TIE TO THE SOURCE TABLES (gen/ProtoTables.v, regenerated from device/src/u3v/protocol/stream.rs on every run):
+   leader / trailer magic, the payload type and payload status tables, for every 16-bit or larger value. *)
+From Cam Require Import ProtoTables P_Tables.
+
+Theorem C11_stream_tables_from_source :
+  LEADER_MAGIC = src_leader_magic /\ TRAILER_MAGIC = src_trailer_magic /\
+  (forall v, payload_type_of v = table_fn src_payload_type 0 v) /\
+  (forall v, payload_status_of v = table_fn src_payload_status 0 v).
+Proof. exact (conj (proj1 stream_magic_src) (conj (proj2 stream_magic_src) (conj payload_type_src payload_status_src))). Qed.
+Print Assumptions C11_stream_tables_from_source.
